@@ -4,7 +4,8 @@ import vlib
 
 C07_WHATS = {"output-destroyed-without-teardown", "finalizer-not-on-input-while-output-exists",
              "finalizer-not-on-input-ignore-teardown", "cleanup-finalizer-released-early"}
-C06_WHATS = {"not-converged", "not-converged-ignore-teardown-orphan", "finalizer-left-on-unmapped-input", "write-log-incomplete"}
+C06_WHATS = {"not-converged", "not-converged-ignore-teardown-orphan", "finalizer-left-on-unmapped-input", "finalizer-left-on-filtered-out-input",
+             "write-log-incomplete"}
 
 
 def model_check(ctx, quick):
@@ -32,14 +33,17 @@ def run(ctx, whats, nbeh, depth, judge="C07"):
     behs[5] = [c("arm"), c("create", 2, 1), c("create", 1, 1), c("addX", 1), c("td", 1), c("release"), c("wait"),
                c("arm"), c("update", 2, 2), c("remX", 1), c("destroy", 1), c("release"), c("wait")]
     # the same beginning, but nobody destroys the input: once the foreign finalizer is gone the controller must clean the output up
-    # although the input never carried its finalizer (configurations 5 and 8: ignore-teardown-until / -while; 17 configurations)
-    for idx in (22, 25):
+    # although the input never carried its finalizer (configurations 5 and 8: ignore-teardown-until / -while; 19 configurations)
+    for idx in (24, 27):
         if len(behs) > idx:
             behs[idx] = [c("arm"), c("create", 2, 1), c("create", 1, 1), c("addX", 1), c("td", 1), c("release"), c("wait"),
                          c("remX", 1), c("wait")]
-    # optional mapping (configuration 11 of 17): an input that carries the controller's finalizer stops being mapped, then is torn down
+    # optional mapping (configuration 11 of 19): an input that carries the controller's finalizer stops being mapped, then is torn down
     if len(behs) > 11:
         behs[11] = [c("create", 1, 1), c("create", 2, 2), c("wait"), c("update", 1, 3), c("wait"), c("td", 1), c("wait")]
+    # filtered inputs (configuration 17 of 19, transform.WithInputListOptions): the same for an input that stops matching the filter
+    if len(behs) > 17:
+        behs[17] = [c("create", 1, 1), c("create", 2, 2), c("wait"), c("update", 1, 3), c("wait"), c("td", 1), c("wait")]
     ctx.cov["directed_known_finding_scenarios"] = 1
     ctx.cov["behaviours_replayed"] = len(behs)
     ctx.sample({"external_ops_head": behs[0][:10]})
